@@ -25,7 +25,7 @@ var c15Passwords = []string{"admin", "my secret", "pa55 w0rd with spaces", "it's
 	// passwords that spell a password clause themselves, with the quote that lets a nested match run out of the literal
 	"a password for x = 'b", "set password for \"y z\" = 'zz' tail", "password for u=\"q", "with password 'inner", "x with password\"q\" y",
 	"PASSWORD FOR a = 'b' WITH PASSWORD 'c'", "password\tfor\tx\t=\t'b"}
-var c15Users = []string{"admin", "u", "my user", "a=b", "with password", "we\"ird", "üser", "select", "x.y", "pass word for"}
+var c15Users = []string{"admin", "u", "my user", "a=b", "with password", "we\"ird", "üser", "select", "x.y", "pass word for", "", " ", "'"}
 
 type c15Layout struct {
 	name  string
@@ -46,6 +46,16 @@ var c15Layouts = []c15Layout{
 	{"set-among", func(u, p string) string { return "SHOW DATABASES; SET PASSWORD FOR " + qid(u) + " = " + p + "; DROP DATABASE d" }, ""},
 	{"create-among", func(u, p string) string { return "SELECT v FROM m;CREATE USER " + qid(u) + " WITH PASSWORD " + p + ";SHOW USERS" }, ""},
 	{"two", func(u, p string) string { return "CREATE USER " + qid(u) + " WITH PASSWORD " + p + "; SET PASSWORD FOR " + qid(u) + " = " + p }, ""},
+	// the scanner reads a bare part directly followed by a quoted part as ONE identifier (the value of the quoted part)
+	{"set-name-in-parts", func(u, p string) string { return "SET PASSWORD FOR abc" + qid(u) + " = " + p }, ""},
+	{"set-name-in-parts-tight", func(u, p string) string { return "set password for x_1" + qid(u) + "=" + p + "; SHOW USERS" }, ""},
+	{"create-name-in-parts", func(u, p string) string { return "CREATE USER abc" + qid(u) + " WITH PASSWORD " + p }, ""},
+	// runes that other layers take for white space: valid only if the scanner does too, and then Sanitize must as well
+	{"create-vt", func(u, p string) string { return "CREATE USER " + qid(u) + " WITH\vPASSWORD\v" + p }, ""},
+	{"create-nbsp", func(u, p string) string { return "CREATE USER " + qid(u) + " WITH\u00a0PASSWORD\u00a0" + p }, ""},
+	{"create-nel-emspace", func(u, p string) string { return "CREATE USER " + qid(u) + " WITH\u0085PASSWORD\u2003" + p }, ""},
+	{"set-exotic-blanks", func(u, p string) string { return "SET PASSWORD\u3000FOR\f" + qid(u) + "\u00a0=\v" + p }, ""},
+	{"set-ff-cr", func(u, p string) string { return "SET PASSWORD\rFOR\r\n" + qid(u) + " =\r" + p }, ""},
 	{"create-comment", func(u, p string) string { return "CREATE USER " + qid(u) + " WITH /* c */ PASSWORD " + p }, "C15-comment-in-clause"},
 	{"create-line-comment", func(u, p string) string { return "CREATE USER " + qid(u) + " WITH -- c\n PASSWORD " + p }, "C15-comment-in-clause"},
 	{"set-comment", func(u, p string) string { return "SET PASSWORD /* c */ FOR " + qid(u) + " = " + p }, "C15-comment-in-clause"},
